@@ -165,6 +165,14 @@ inductive OEntry where
   | drop (bs : List Bool)
   /-- the shuffled `literals_to_resample` -/
   | shuf (ls : List Int)
+  /-- fitness-guided variant: `merge_sorted_configs`, for every step in which both lists still have an
+  element whether the left one was taken (comparison of float averages) -/
+  | lr (bs : List Bool)
+  /-- fitness-guided variant: the position of an extended partial configuration after
+  `cover_with_caching_sorted` moved it (comparisons of float averages) -/
+  | moved (k : Nat)
+  /-- fitness-guided variant: the configuration `calc_best_config` chose as completion -/
+  | best (c : List Int)
 deriving Repr
 
 /-- the entries not consumed yet, and how many consumed entries were not admissible (reported by the
@@ -456,6 +464,185 @@ def sampleTWiseQ (cx : Ctx) (t : Nat) (q : Queue) : Res × Queue :=
 
 def sampleTWise (cx : Ctx) (t : Nat) (q : Queue) : Res := (sampleTWiseQ cx t q).1
 
+/-! ### the fitness-guided variant (`ExtendedDdnnf::sample_t_wise`)
+
+model of
+  …/sample_merger/attribute_zipping_merger.rs     zip_samples, merge, merge_all
+  …/sample_merger/attribute_similarity_merger.rs  merge
+  …/covering_strategies.rs                         cover_with_caching_sorted
+  …/t_wise_sampler.rs                              complete_partial_configs_optimal
+  ddnnife/src/ddnnf/extended_ddnnf.rs              merge_sorted_configs, insert_config_sorted
+  ddnnife/src/ddnnf/anomalies/t_wise_sampling.rs   ExtendedDdnnf::sample_t_wise
+
+The objective values are floats and only ever compared; every comparison result (and the configuration
+`calc_best_config` picks) is an oracle entry, so the theorems hold whatever the values are.
+`insert_config_sorted` compares the value of the pushed configuration with the element at its own
+index, i.e. with itself (`config_val > val(sorted_configs[curr_idx])` right after the push): the loop
+never runs and the configuration stays at the end; it is modelled as that. -/
+
+/-- `merge_sorted_configs` with the comparison results given: `none` if the number of results does
+not fit -/
+def mergeLR {α} : List Bool → List α → List α → Option (List α)
+  | bs, [], r => if bs.isEmpty then some r else none
+  | bs, l, [] => if bs.isEmpty then some l else none
+  | [], _ :: _, _ :: _ => none
+  | b :: bs, x :: l, y :: r =>
+      if b then (mergeLR bs l (y :: r)).map (x :: ·) else (mergeLR bs (x :: l) r).map (y :: ·)
+
+/-- the canonical interleaving: always the left element (what the code does when all values are equal) -/
+def pickLR {α} (l r : List α) (q : Queue) : List α × Queue :=
+  match q.entries with
+  | .lr bs :: rest =>
+      match mergeLR bs l r with
+      | some m => (m, q.next true rest)
+      | none => (l ++ r, q.next false rest)
+  | _ => (l ++ r, q)
+
+def pickMoved (len : Nat) (dflt : Nat) (q : Queue) : Nat × Queue :=
+  match q.entries with
+  | .moved k :: rest => if k < len then (k, q.next true rest) else (dflt, q.next false rest)
+  | _ => (dflt, q)
+
+/-- the configurations of a sample in the order of `merge_sorted_configs(partial, complete)` -/
+def sortedCfgs (s : Sample) (q : Queue) : List Cfg × Queue := pickLR s.partials s.complete q
+
+/-- `insert_config_sorted` into the list the completeness test selects (= push, see above) -/
+def Sample.insertSorted (s : Sample) (c : Cfg) : Sample := s.add c
+
+/-- `AttributeZippingMerger::zip_samples` -/
+def zipSamplesA (l r : Sample) (n : Nat) (q : Queue) : Sample × Queue :=
+  let s0 := Sample.fromSamples [l, r]
+  let (ls, q1) := sortedCfgs l q
+  let (rs, q2) := sortedCfgs r q1
+  let s1 := (ls.zip rs).foldl (fun s (p : Cfg × Cfg) => s.insertSorted (Cfg.fromDisjoint p.1 p.2 n)) s0
+  let remaining := if l.len ≥ r.len then ls.drop r.len else rs.drop l.len
+  (remaining.foldl Sample.insertSorted s1, q2)
+
+/-- `cover_with_caching_sorted` -/
+def coverSorted (cx : Ctx) (node : Nat) (s : Sample) (I : List Int) (q : Queue) : Sample × Queue :=
+  if s.covers I then (s, q)
+  else
+    let (m, ok) := satSub cx node cx.fresh I
+    if !ok then (s, q)
+    else
+      match cover cx node I s.partials 0 with
+      | (ps, some idx) =>
+          match ps[idx]? with
+          | none => ({ s with partials := ps }, q)
+          | some c =>
+              let s' := { s with partials := ps }
+              if s'.isComplete c then ({ s' with partials := ps.eraseIdx idx, complete := s'.complete ++ [c] }, q)
+              else
+                let (k, q') := pickMoved ps.length idx q
+                ({ s' with partials := ((ps.eraseIdx idx).take k) ++ c :: ((ps.eraseIdx idx).drop k) }, q')
+      | (ps, none) => (({ s with partials := ps }).add ((Cfg.ofLits I cx.n).setSat m), q)
+
+def foldCoverSorted (cx : Ctx) (node : Nat) : List (List Int) → Sample → Queue → Sample × Queue
+  | [], s, q => (s, q)
+  | I :: rest, s, q =>
+      let (s', q') := coverSorted cx node s I q
+      foldCoverSorted cx node rest s' q'
+
+/-- the interactions `AttributeZippingMerger::merge` collects: `k` literals of the left sample's
+literal list with `t - k` of the right one's, those not covered after zipping -/
+def crossLiterals (l r : Sample) (t : Nat) (zipped : Sample) : List (List Int) :=
+  (((List.range (t - 1)).map (· + 1)).flatMap fun k =>
+    (tIter l.literals (min l.literals.length k)).flatMap fun a =>
+      (tIter r.literals (min r.literals.length (t - k))).map fun b => a ++ b).filter fun X => !zipped.covers X
+
+/-- `AttributeZippingMerger::merge` -/
+def andMergeA (cx : Ctx) (t : Nat) (node : Nat) (l r : Sample) (q : Queue) : Sample × Queue :=
+  if l.isEmpty then (r, q)
+  else if r.isEmpty then (l, q)
+  else
+    let (z, q1) := zipSamplesA l r cx.n q
+    let (ord, q2) := pickInter (crossLiterals l r t z) q1
+    foldCoverSorted cx node ord z q2
+
+def insertByLenStable (s : Sample) : List Sample → List Sample
+  | [] => [s]
+  | y :: ys => if s.len ≤ y.len then s :: y :: ys else y :: insertByLenStable s ys
+
+/-- `Itertools::sorted` (stable) by the number of configurations -/
+def sortByLenStable (ss : List Sample) : List Sample := ss.foldr insertByLenStable []
+
+/-- `AttributeZippingMerger::merge_all` -/
+def andMergeAllA (cx : Ctx) (t : Nat) (node : Nat) (ss : List Sample) (q : Queue) : Sample × Queue :=
+  foldMerge (andMergeA cx t node) (sortByLenStable ss) {} q
+
+/-- `Sample::is_t_wise_covered` -/
+def Sample.tWiseCovered (s : Sample) (c : Cfg) (t : Nat) : Bool :=
+  (tIter c.decided (min t c.decided.length)).all s.covers
+
+/-- `AttributeSimilarityMerger::merge` -/
+def orMergeA (t : Nat) (l r : Sample) (q : Queue) : Sample × Queue :=
+  if l.isEmpty then (r, q)
+  else if r.isEmpty then (l, q)
+  else
+    let s0 := Sample.fromSamples [l, r]
+    let (ls, q1) := sortedCfgs l q
+    let (rs, q2) := sortedCfgs r q1
+    let (cands, q3) := pickLR ls rs q2
+    (cands.foldl (fun s c => if s.tWiseCovered c t then s else s.add c) s0, q3)
+
+def partialSampleA (cx : Ctx) (t : Nat) (get : Nat → Res) (node : Nat) (nd : NType) (q : Queue) : Res × Queue :=
+  match nd with
+  | .lit l => (.sample (Sample.ofLiteral l cx.n), q)
+  | .tru => (.empty, q)
+  | .fls => (.void, q)
+  | .and cs =>
+      let rs := cs.map get
+      if rs.any isVoid then (.void, q)
+      else
+        let (s, q') := andMergeAllA cx t node (rs.filterMap resSample) q
+        (Res.ofSample s, q')
+  | .or cs =>
+      let rs := cs.map get
+      if rs.all isVoid then (.void, q)
+      else
+        let (s, q') := foldMerge (orMergeA t) (rs.filterMap resSample) {} q
+        (Res.ofSample s, q')
+
+def sampleNodesA (cx : Ctx) (t : Nat) : List NType → Array Res → Queue → Array Res × Queue
+  | [], acc, q => (acc, q)
+  | nd :: rest, acc, q =>
+      let (r, q') := partialSampleA cx t (fun j => acc.getD j .void) acc.size nd q
+      sampleNodesA cx t rest (acc.push r) q'
+
+/-- is `c` a complete configuration over `1..n` that makes the root true and contains `lits`? -/
+def isModelWith (cx : Ctx) (c lits : List Int) : Bool :=
+  c.length == cx.n &&
+  ((List.range cx.n).all fun k => c.getD k 0 == ((k + 1 : Nat) : Int) || c.getD k 0 == -((k + 1 : Nat) : Int)) &&
+  eval (fun v => c.contains (v : Int)) cx.nodes (rootIx cx.nodes) && lits.all c.contains
+
+/-- one step of `complete_partial_configs_optimal`: the completion `calc_best_config` chose, if it is a
+model containing the configuration; the SAT-guided completion otherwise -/
+def completeBest (cx : Ctx) (root : Nat) (c : Cfg) (q : Queue) : Cfg × Queue :=
+  match q.entries with
+  | .best b :: rest =>
+      if isModelWith cx b c.decided then (Cfg.ofLits b cx.n, q.next true rest)
+      else (completeCfg cx root c, q.next false rest)
+  | _ => (completeCfg cx root c, q)
+
+/-- `complete_partial_configs_optimal`: the partial configurations are popped from the end, completed
+and added (to the complete ones) -/
+def completePartialsA (cx : Ctx) (root : Nat) : List Cfg → Sample → Queue → Sample × Queue
+  | [], s, q => (s, q)
+  | c :: rest, s, q =>
+      let (c', q') := completeBest cx root c q
+      completePartialsA cx root rest (s.add c') q'
+
+/-- `ExtendedDdnnf::sample_t_wise(t)` -/
+def sampleTWiseAQ (cx : Ctx) (t : Nat) (q : Queue) : Res × Queue :=
+  let (rs, q') := sampleNodesA cx t cx.nodes #[] q
+  let root := rootIx cx.nodes
+  match rs.getD root .void with
+  | .sample s =>
+      let (s1, q1) := trimAndResample cx root s t q'
+      let (s2, q2) := completePartialsA cx root s1.partials.reverse { s1 with partials := [] } q1
+      (.sample s2, q2)
+  | r => (r, q')
+
 def ctxOf (nodes : List NType) (n : Nat) : Ctx := { nodes := nodes, n := n, core := coreOf nodes n }
 
 /-- the configurations the caller sees, in the order of `Sample::iter` -/
@@ -465,5 +652,8 @@ def Res.configs : Res → List (List Int)
 
 /-- `Ddnnf::sample_t_wise(t)` on a loaded model -/
 def run (nodes : List NType) (n t : Nat) (q : Queue) : Res := sampleTWise (ctxOf nodes n) t q
+
+/-- `ExtendedDdnnf::sample_t_wise(t)` on a loaded model, whatever the fitness values are -/
+def runA (nodes : List NType) (n t : Nat) (q : Queue) : Res := (sampleTWiseAQ (ctxOf nodes n) t q).1
 
 end Ddnnf.TW
